@@ -116,10 +116,12 @@ def attr_name_key(name: Any) -> Any:
     attribute, so a quoted spelling without interpolation is decoded before
     names are compared.  Dynamic names (`"a${x}"`) only ever equal themselves.
     """
-    if not isinstance(name, str) or len(name) < 2:
+    if not isinstance(name, str):
         return name
-    if not (name.startswith('"') and name.endswith('"')):
-        return name
+    if not (len(name) >= 2 and name.startswith('"') and name.endswith('"')):
+        # Bare spelling: a dynamic segment (`${x}`) must never equal the
+        # decoded form of an escaped quoted name (`"\${x}"`).
+        return ("dynamic", name) if "${" in name else name
     decoded: list[str] = []
     index = 1
     end = len(name) - 1
@@ -131,9 +133,9 @@ def attr_name_key(name: Any) -> Any:
             index += 2
             continue
         if ch == "$" and index + 1 < end and name[index + 1] == "{":
-            return name
+            return ("dynamic", name)
         if ch == '"':
-            return name
+            return ("dynamic", name)
         decoded.append(ch)
         index += 1
     return "".join(decoded)
